@@ -127,6 +127,9 @@ def _plan_for(prop, pid, verif_seed, tier, kind, index):
     return plan
 
 
+_WORKER_CHUNKS: list = []   # [population, first, last] of the chunks THIS worker process has executed so far, in order
+
+
 def _work(args):
     pid, verif_seed, tier, kind, indices, det_set = args
     faulthandler.dump_traceback_later(CHUNK_WALL, exit=True)
@@ -134,9 +137,11 @@ def _work(args):
     out = {
         "evaluations": 0, "cases": 0, "nontrivial": set(), "shapes": set(), "faults": Counter(), "probes": Counter(),
         "sim_time_us": 0, "violations": [], "discarded": Counter(), "harness": [], "digests": {}, "samples": [],
-        "extra": Counter(),
+        "extra": Counter(), "histories": {},
     }
+    last_done = None
     for index in indices:
+        last_done = index
         try:
             plan = _plan_for(prop, pid, verif_seed, tier, kind, index)
             res = prop.execute(plan)
@@ -163,10 +168,15 @@ def _work(args):
         out["sim_time_us"] += res.sim_time_us
         for v in res.violations:
             out["violations"].append((kind, index, list(v.sig), v.msg, v.plan or plan))
+        if res.violations and len(out["histories"]) < 4:
+            # everything this process executed before this run (for the last rung of the confirmation ladder)
+            out["histories"][f"{kind}:{index}"] = [list(c) for c in _WORKER_CHUNKS] + ([[kind, indices[0], index - 1]] if index > indices[0] else [])
         if any("wall_clock" in v.sig for v in res.violations):
             break       # a run that had to be stopped by the wall-clock alarm: do not spend the chunk's budget on more of them
         if len(out["samples"]) < 2 and (res.faults or not out["samples"]):
             out["samples"].append(plan)
+    if last_done is not None:
+        _WORKER_CHUNKS.append([kind, indices[0], last_done])
     faulthandler.cancel_dump_traceback_later()
     return out
 
@@ -192,6 +202,15 @@ def do_replay(pid, path) -> int:
     with open(path) as f:
         doc = json.load(f)
     expect = doc.pop("expect", {})
+    pr = doc.pop("prelude_ranges", None)
+    if pr:
+        # every run the worker process had executed before the failing one (state leaked across runs in one process)
+        for kind_, a, b in pr["ranges"]:
+            for j in range(a, b + 1):
+                try:
+                    prop.execute(_plan_for(prop, pid, pr["verif_seed"], pr["tier"], kind_, j))
+                except Exception:
+                    pass
     for pre in doc.pop("prelude", []):
         # runs that have to precede this one in the same process (the violation depends on state leaking across runs)
         try:
@@ -261,7 +280,7 @@ def run_check(pid: str, tier: str, verif_seed: int, runs: int | None, workers: i
     agg = {
         "evaluations": 0, "cases": 0, "nontrivial": set(), "shapes": set(), "faults": Counter(), "probes": Counter(),
         "sim_time_us": 0, "violations": [], "discarded": Counter(), "harness": [], "digests": {}, "samples": [],
-        "extra": Counter(),
+        "extra": Counter(), "histories": {},
     }
     truncated = False
     _kf = load_findings()
@@ -299,6 +318,7 @@ def run_check(pid: str, tier: str, verif_seed: int, runs: int | None, workers: i
                 agg["violations"] += out["violations"]
                 agg["harness"] += out["harness"]
                 agg["digests"].update(out["digests"])
+                agg["histories"].update(out.get("histories", {}))
                 if len(agg["samples"]) < 3:
                     agg["samples"] += out["samples"][: 3 - len(agg["samples"])]
                 submit_more()
@@ -418,6 +438,22 @@ def run_check(pid: str, tier: str, verif_seed: int, runs: int | None, workers: i
                     confirmed = (tmp, kind, index, msg, f"NOTE: reproduces only after the {index - first} runs that preceded it in its chunk "
                                                         f"(recorded as 'prelude' in the replay file): state leaks across runs in one process")
                     break
+        if confirmed is None:
+            # very last rung: everything the worker process had executed before the failing run, earlier chunks included
+            for kind, index, msg, plan in sorted(items, key=lambda t: t[1]):
+                h = agg["histories"].get(f"{kind}:{index}")
+                if not h or len(h) < 2:
+                    continue
+                total = sum(b - a + 1 for _, a, b in h)
+                if total > 80000:
+                    continue
+                doc = dict(plan)
+                doc["prelude_ranges"] = {"verif_seed": verif_seed, "tier": tier, "ranges": h}
+                tmp = write_replay(pid, doc, sig, "", msg)
+                if fresh_replay(pid, tmp)[0] == 1:
+                    confirmed = (tmp, kind, index, msg, f"NOTE: reproduces only after the {total} runs its worker process had executed before it "
+                                                        f"(recorded as 'prelude_ranges' in the replay file): state leaks across runs in one process")
+                break
         if confirmed is None:
             kind, index, msg, plan = cands[0]
             not_repro.append((kind, index, sig))
